@@ -21,6 +21,7 @@ RULE = (
     "lengths, symmetric vs square. Limit cases: int32 counts whose aggregate exceeds 2^31-1, an aggregation whose "
     "result is fractional on an integer column. Oracle: per-pixel aggregate over the inputs containing it. "
     "Non-trivial = k>=2 with >=1 pixel shared by two inputs and >=1 pixel unique to one. Distinct by sha1."
+    ' Inputs may be groups of ONE file; the incompatible-pair grammar includes variable-width variants (storage mode, names) and an odd input without any pixel; CLI field specs with two columns in either order.'
 )
 ASSUMPTIONS = ["float value columns hold dyadic rationals (exact sums)"]
 
